@@ -25,11 +25,21 @@ def build():
     src = vc.harness_path("stubmod.c")
 
     def b(out):
-        so = os.path.join(out, "stub.so")
-        vc._run(["gcc"] + vc.SAN + ["-fPIC", "-shared", "-w", src, "-o", so])
-        for n in NAMES:
-            shutil.copy(so, os.path.join(out, n + ".so"))
-    return vc.cached_build("stubmods", [src], vc.SAN, b)
+        # variants: full / no constructor / no post-init / no destructor (all three entry points are optional)
+        for var, defs in VARIANTS.items():
+            vc._run(["gcc"] + vc.SAN + ["-fPIC", "-shared", "-w"] + defs + [src, "-ldl", "-o", os.path.join(out, "stub-%s.so" % var)])
+    return vc.cached_build("stubmods", [src], (vc.SAN, sorted(VARIANTS)), b)
+
+
+VARIANTS = {"full": [], "noctor": ["-DNO_CTOR"], "nopost": ["-DNO_POSTINIT"], "nodtor": ["-DNO_DTOR"]}
+
+
+def install_modules(stubdir, moddir, variants):
+    """Per-case module directory: mN.so is a copy of the chosen variant (dlopen treats
+    distinct files as distinct libraries)."""
+    os.makedirs(moddir, exist_ok=True)
+    for n in NAMES:
+        shutil.copy(os.path.join(stubdir, "stub-%s.so" % variants.get(n, "full")), os.path.join(moddir, n + ".so"))
 
 
 def setup():
@@ -77,11 +87,17 @@ def longest_chain(graph, nodes):
 def run_case(case, root):
     """case: {"graph": {name: [deps]}, "list": [names], "missing": name|None} -> CaseResult"""
     res = CaseResult()
-    moddir = build()
+    stubdir = build()
     wd = os.path.join(root, "c")
     shutil.rmtree(wd, ignore_errors=True)
     os.makedirs(wd)
+    variants = dict(case.get("variants") or {})
+    moddir = os.path.join(wd, "mods")
+    install_modules(stubdir, moddir, variants)
     graph = {k: list(v) for k, v in case["graph"].items()}
+    for n, v in variants.items():
+        if v == "noctor":
+            graph.pop(n, None)        # a module without a constructor cannot declare dependencies
     lst = list(case["list"])
     conf = "core {\n  library_path ( %s );\n  modules ( %s );\n};\nlogs { };\n" % (dm.quote(moddir), ", ".join(lst))
     cp = os.path.join(wd, "m.conf")
@@ -136,23 +152,29 @@ def run_case(case, root):
     for i, (what, name) in enumerate(events):
         pos.setdefault((what, name), []).append(i)
     loaded = {name for (what, name) in pos}
-    if loaded != nodes:
+    silent = {n for n in nodes if variants.get(n) == "noctor" and not pos.get(("post_init", n)) and not pos.get(("dtor", n))}
+    if loaded | silent != nodes:
         res.violations.append(V("wrong_module_set", "%s: loaded %s, expected %s" % (desc, sorted(loaded), sorted(nodes))))
         return res
+    def has(n, what):
+        v = variants.get(n, "full")
+        return not ((v == "noctor" and what.startswith("ctor")) or (v == "nopost" and what == "post_init") or (v == "nodtor" and what == "dtor"))
     for n in nodes:
         for what in ("ctor_begin", "ctor_end", "post_init", "dtor"):
             c = len(pos.get((what, n), []))
-            if c != 1:
-                res.violations.append(V("event_count", "%s: %s of %s ran %d times" % (desc, what, n, c)))
+            if c != (1 if has(n, what) else 0):
+                res.violations.append(V("event_count", "%s (variants %s): %s of %s ran %d times" % (desc, variants, what, n, c)))
                 return res
     for a in nodes:
         for b in graph.get(a, []):
-            if not pos[("ctor_end", b)][0] < pos[("ctor_end", a)][0]:
+            if has(a, "ctor_end") and has(b, "ctor_end") and not pos[("ctor_end", b)][0] < pos[("ctor_end", a)][0]:
                 res.violations.append(V("ctor_order", "%s: %s depends on %s but finished constructing first" % (desc, a, b)))
-            if not pos[("post_init", b)][0] < pos[("post_init", a)][0]:
+            if has(a, "post_init") and has(b, "post_init") and not pos[("post_init", b)][0] < pos[("post_init", a)][0]:
                 res.violations.append(V("post_init_order", "%s: post-init of %s ran before that of its dependency %s" % (desc, a, b)))
-            if not pos[("dtor", a)][0] < pos[("dtor", b)][0]:
+            if has(a, "dtor") and has(b, "dtor") and not pos[("dtor", a)][0] < pos[("dtor", b)][0]:
                 res.violations.append(V("dtor_order", "%s: destructor of %s ran after that of its dependency %s" % (desc, a, b)))
+    if variants:
+        res.classes.add("optional_entry_point_missing")
     indeg = {}
     for a in nodes:
         for b in graph.get(a, []):
@@ -189,7 +211,11 @@ def graph_s(draw, pid, tier, opts=None):
             graph.setdefault(draw(st.sampled_from(names)), []).append("mX")
         else:
             lst = list(lst) + ["mX"]
-    return {"graph": graph, "list": lst, "missing": missing}
+    variants = {}
+    if draw(st.integers(0, 2)) == 0:
+        for n in draw(st.lists(st.sampled_from(names), min_size=1, max_size=2, unique=True)):
+            variants[n] = draw(st.sampled_from(["noctor", "nopost", "nopost", "nodtor"]))
+    return {"graph": graph, "list": lst, "missing": missing, "variants": variants}
 
 
 def make_context(pid, tier, widx, opts):
@@ -227,6 +253,12 @@ def enum_cases(tier):
             for k in range(1, n + 1):
                 for lst in itertools.permutations(names, k):
                     yield {"graph": graph, "list": list(lst), "missing": None}
+            if n == 3 and not has_cycle(graph, names):
+                # every acyclic 3-module graph again with one module lacking one optional entry point
+                for who in names:
+                    for var in ("noctor", "nopost", "nodtor"):
+                        for lst in ([names[0]], names, names[::-1]):
+                            yield {"graph": graph, "list": list(lst), "missing": None, "variants": {who: var}}
     if tier == "thorough":
         names = NAMES[:4]
         pairs = [(a, b) for a in names for b in names if a != b]
